@@ -263,6 +263,7 @@ func runC09(c *run.Ctx) {
 	}
 	c.Set("table_cells_per_backend", total/3)
 	hist := c09Histories(c, s, sdl)
+	hist += c09Subscription(c)
 	c.MinNontriv = (total + hist) * 2 / 3
 }
 
@@ -553,4 +554,71 @@ func c09Injected(c *run.Ctx, h *back.Harness, bk, kind, key string, depth int, d
 		c.Violation("c09-injected-"+kind, map[string]interface{}{"backend": bk, "parsed_document": plain, "directives_added_to_the_parsed_selection": fmt.Sprint(dirs), "vars": vars,
 			"diag": "differs from the answer to the same directives written in the document: " + diff, "observed": out.Describe(), "expected": exp.Describe()})
 	}
+}
+
+// c09Subscription: the rule holds for the root field of a subscription operation too. The condition is a literal, a
+// provided variable or a variable left to its default; when the field stays the subscriber is registered and gets the
+// event, when it is excluded nobody is subscribed (and no resolver ran).
+func c09Subscription(c *run.Ctx) int {
+	type sc struct {
+		head, dir string
+		vars      map[string]interface{}
+		stays     bool
+	}
+	cases := []sc{
+		{``, `@include(if: true)`, nil, true}, {``, `@skip(if: true)`, nil, false}, {``, `@skip(if: false) @include(if: true)`, nil, true},
+		{`($on: Boolean = true)`, `@include(if: $on)`, nil, true}, {`($on: Boolean = true)`, `@skip(if: $on)`, nil, false},
+		{`($off: Boolean = false)`, `@skip(if: $off)`, nil, true}, {`($off: Boolean = false)`, `@include(if: $off)`, nil, false},
+		{`($on: Boolean = true)`, `@include(if: $on)`, map[string]interface{}{"on": false}, false}, {`($off: Boolean = false)`, `@skip(if: $off)`, map[string]interface{}{"off": true}, false},
+		{`($v: Boolean!)`, `@include(if: $v)`, map[string]interface{}{"v": true}, true}, {`($v: Boolean!)`, `@skip(if: $v)`, map[string]interface{}{"v": true}, false},
+		{`($a: Boolean = false, $b: Boolean = true)`, `@skip(if: $a) @include(if: $b)`, nil, true}, {`($a: Boolean = false, $b: Boolean = true)`, `@include(if: $a) @skip(if: $b)`, nil, false},
+	}
+	done := 0
+	for ci, cs := range cases {
+		for form := 0; form < 3; form++ {
+			var clock int64
+			lg := &subLog{cleanups: map[int][]int64{}, clock: &clock}
+			ro := &subRootObj{log: lg}
+			root := ggql.NewRoot(ro)
+			if err := root.ParseString(subSDL); err != nil {
+				c.Violation("c09-schema-rejected", map[string]interface{}{"error": err.Error()})
+				return done
+			}
+			var cur int64 = 1
+			h := &hSub{sid: 0, log: lg, failOn: map[int]bool{}, field: "listen", current: &cur}
+			ro.pending = h
+			var text string
+			switch form {
+			case 0:
+				text = "subscription S" + cs.head + " { listen(topic: \"a\") " + cs.dir + " { id n } }"
+			case 1:
+				text = "subscription S" + cs.head + " { ... on Subscription " + cs.dir + " { listen(topic: \"a\") { id n } } }"
+			default:
+				text = "subscription S" + cs.head + " { ...R " + cs.dir + " } fragment R on Subscription { listen(topic: \"a\") { id n } }"
+			}
+			var res map[string]interface{}
+			pv, _ := run.Protect(func() { res = root.ResolveString(text, "", copyVars(cs.vars)) })
+			created := len(ro.created) > 0
+			cnt := 0
+			if pv == nil {
+				run.Protect(func() { cnt, _ = root.AddEvent("a", &subEvent{uid: 1, id: "e1", n: 5, tag: "t"}) })
+			}
+			done++
+			c.Eval(fmt.Sprintf("subscription-root|%d|%d", ci, form), true)
+			c.Bucket("kind", "subscription-root-field")
+			diag := ""
+			switch {
+			case pv != nil:
+				diag = fmt.Sprintf("panic: %v", pv)
+			case cs.stays && (res["errors"] != nil || !created || cnt != 1 || len(lg.deliveries) != 1):
+				diag = fmt.Sprintf("the field stays: expected a subscriber that receives the event; errors=%v resolver_ran=%v matched=%d deliveries=%d", res["errors"], created, cnt, len(lg.deliveries))
+			case !cs.stays && (created || cnt != 0 || len(lg.deliveries) != 0):
+				diag = fmt.Sprintf("the field is excluded: its resolver must not run and nobody is subscribed; resolver_ran=%v matched=%d deliveries=%d", created, cnt, len(lg.deliveries))
+			}
+			if diag != "" {
+				c.Violation("c09-subscription-root", map[string]interface{}{"document": text, "vars": cs.vars, "expected_present": cs.stays, "diag": diag, "response": fmt.Sprint(res)})
+			}
+		}
+	}
+	return done
 }
